@@ -301,6 +301,14 @@ class Recorder:
                            "state": st, "out": {"rc": r.rc, "io": int(summ.get("error_io", "0") or 0)}})
         return r, kind, pos
 
+    def refused(self, cmd, trigger, *args, conf=None, result=None):
+        """a command that is expected to be refused (C14); logs rc and the state left behind"""
+        r = result if result is not None else self.a.run(cmd, *args, conf=conf)
+        self.last_result = r
+        self.lines.append({"e": "Refused", "args": {"cmd": cmd, "trigger": trigger, "flags": [str(x) for x in args]},
+                           "state": self.state(), "out": {"rc": r.rc, "err": r.err.strip().splitlines()[-2:]}})
+        return r
+
     def fix_killed(self, rules, *flags):
         r = self.a.run("fix", *flags, rules=rules)
         self.last_result = r
